@@ -119,6 +119,19 @@ def expectedFlagReads : List (String × List String) := [
   ("src/vm/evm.go:EVM.create", ["IsProposal006", "IsProposal007", "IsProposal026"])
 ]
 
+/-- the account the balance guard looks at is the account the transfer debits, in every EVM entry point:
+    `Call` / `CallCode` / `create`: the caller (model: `canTransfer s.bal self v` then `vmTransfer s.bal self …`);
+    `AuthCall`: the sponsor = tx origin (model: `canTransfer s.bal origin v` then `vmTransfer s.bal origin to v`) -/
+def expectedGuardArgs : List (String × String) := [
+  ("src/vm/evm.go:EVM.AuthCall:CanTransfer", "sponsor | value"),
+  ("src/vm/evm.go:EVM.AuthCall:Transfer", "sponsor | addr | value"),
+  ("src/vm/evm.go:EVM.Call:CanTransfer", "caller.Address() | value"),
+  ("src/vm/evm.go:EVM.Call:Transfer", "caller.Address() | addr | value"),
+  ("src/vm/evm.go:EVM.CallCode:CanTransfer", "caller.Address() | value"),
+  ("src/vm/evm.go:EVM.create:CanTransfer", "caller.Address() | value"),
+  ("src/vm/evm.go:EVM.create:Transfer", "caller.Address() | address | value")
+]
+
 def hexOf (n : Nat) : String := String.ofList (Nat.toDigits 16 n)
 
 /-- constants, rendered from the model's own definitions -/
@@ -175,6 +188,9 @@ theorem order_as_transcribed : LedgerFacts.order = expectedOrder := by decide
 /-- The ledger paths test exactly the fork flags the model takes as input (002, 015, 017, 018, 026, 027; 006/007/013 are
     nonce / log bookkeeping outside the ledger). -/
 theorem flags_as_modelled : LedgerFacts.flagReads = expectedFlagReads := by decide
+
+/-- Guard and debit name the same account expression at every EVM entry point, as the model transcribes them. -/
+theorem guard_checks_the_debited_account : LedgerFacts.guardArgs = expectedGuardArgs := by decide
 
 /-- The constants of the model are the constants of the source. -/
 theorem constants_match : LedgerFacts.consts = expectedConsts := by decide
